@@ -171,6 +171,9 @@ func yaccParse(text string) (cond influxql.Expr, err error) {
 	return s.Condition, nil
 }
 
+// number of ParseExpr calls that did not come back (each leaves a spinning goroutine behind)
+var hangs int
+
 type result struct {
 	accepted bool
 	t1, t2   string // dumps; t2 = "err" when ParseExpr fails
@@ -205,7 +208,9 @@ func roundTrip(text string) (r result) {
 	}()
 	select {
 	case <-done:
-	case <-time.After(20 * time.Second):
+	case <-time.After(3 * time.Second):
+		// (parseSet loops forever when the text ends inside an IN list; the goroutine is lost)
+		hangs++
 		r.panicked = "ParseExpr does not terminate"
 		r.t2 = "err"
 		return
@@ -299,7 +304,7 @@ func tagTypedBeforeDiv(x *influxql.BinaryExpr) bool {
 
 func isInfNan(s string) bool { l := strings.ToLower(s); return l == "inf" || l == "nan" }
 
-func classify(e1, e2 influxql.Expr) string {
+func classify(e1, e2 influxql.Expr, reCtx bool) string {
 	switch a := e1.(type) {
 	case *influxql.NumberLiteral:
 		if a.Val == math.Trunc(a.Val) && !math.IsInf(a.Val, 0) {
@@ -333,17 +338,18 @@ func classify(e1, e2 influxql.Expr) string {
 		}
 		for i := range a.Args {
 			if dump(a.Args[i]) != dump(b.Args[i]) {
-				return classify(a.Args[i], b.Args[i])
+				return classify(a.Args[i], b.Args[i], true)
 			}
 		}
 		return ""
 	case *influxql.ParenExpr:
 		if b, ok := e2.(*influxql.ParenExpr); ok {
-			return classify(a.Expr, b.Expr)
+			return classify(a.Expr, b.Expr, false)
 		}
 		return scanFeatures(a)
 	case *influxql.RegexLiteral:
-		if b, ok := e2.(*influxql.RegexLiteral); ok && a.Val != nil && b.Val != nil && strings.Contains(a.Val.String(), "/") {
+		// only where Scanner.Scan (not parseRegex) reads the regex back
+		if b, ok := e2.(*influxql.RegexLiteral); ok && !reCtx && a.Val != nil && b.Val != nil && strings.Contains(a.Val.String(), "/") {
 			return "regex_operand_outside_regex_operator"
 		}
 		return ""
@@ -355,7 +361,7 @@ func classify(e1, e2 influxql.Expr) string {
 			// same node on both sides: the difference is below; a child that differs without a
 			// known class decides (no masking by a sibling)
 			if dump(a.LHS) != dump(b.LHS) {
-				if c := classify(a.LHS, b.LHS); c != "" || dump(a.RHS) == dump(b.RHS) {
+				if c := classify(a.LHS, b.LHS, reCtx); c != "" || dump(a.RHS) == dump(b.RHS) {
 					if c != "" {
 						return c
 					}
@@ -367,7 +373,7 @@ func classify(e1, e2 influxql.Expr) string {
 				}
 			}
 			if dump(a.RHS) != dump(b.RHS) {
-				if c := classify(a.RHS, b.RHS); c != "" {
+				if c := classify(a.RHS, b.RHS, a.Op == influxql.EQREGEX || a.Op == influxql.NEQREGEX); c != "" {
 					return c
 				}
 			}
@@ -502,7 +508,7 @@ func runExpr(c *hx.Ctx, g *gen, text string, mutated bool) {
 	}
 	cls := ""
 	if r.e2 != nil {
-		cls = classify(r.e1, r.e2)
+		cls = classify(r.e1, r.e2, false)
 	} else {
 		cls = scanFeatures(r.e1)
 	}
@@ -671,6 +677,10 @@ func Run(c *hx.Ctx) error {
 	}
 	nCodec := n / 15
 	for i := 0; i < n; i++ {
+		if hangs >= 3 {
+			c.Stats.Notes = append(c.Stats.Notes, "stopped early: ParseExpr did not terminate on 3 printed conditions")
+			return nil
+		}
 		g.feats = map[string]bool{}
 		g.outOfDomain = false
 		switch k := r.Intn(100); {
